@@ -10,7 +10,7 @@ from ..monitors import EscapeMonitor, DbusViewMonitor
 from ..evidence import graph_evidence
 from .c01 import hexn, DEVS
 
-from .c18_nodes import run_nodes, WORKLOADS as NODE_WORKLOADS  # noqa: F401,E402
+from .c18_nodes import run_nodes, run_udp_nodes, WORKLOADS as NODE_WORKLOADS, UDP_WORKLOADS  # noqa: F401,E402
 
 
 def run_send_histories(params, known):
@@ -414,6 +414,10 @@ def scenarios(tier):
             nm = 'nodes/%s/%s' % (wname, ''.join(order))
             out.append(dict(name=nm, kind='enum', runner='run_nodes', params=dict(name=nm, workload=wname, order=order),
                             weight=60 if wname == 'three' else 8))
+    # the same over UDPCL: bp.cla.UdpclAdaptor between a real BP agent and a real UDPCL agent per node
+    for wname in UDP_WORKLOADS:
+        nm = 'udp-nodes/%s' % wname
+        out.append(dict(name=nm, kind='enum', runner='run_udp_nodes', params=dict(name=nm, workload=wname), weight=5))
     adepth = 3
     aparts = 4 if tier == 'quick' else 8
     for part in range(aparts):
